@@ -143,6 +143,11 @@ class VC:
             return obj._vc_super()
         raise Unsupported(f"super() of {type(obj).__name__}")
 
+    def str_join(self, sep, parts):
+        if hasattr(parts, "_vc_join"):
+            return parts._vc_join(sep)
+        return sep.join(parts)
+
     def native_while_test(self, k, value):
         if isinstance(value, Sym):
             raise ContractBindError(f"loop {k} of {self.fn_name} has a symbolic condition but no loop contract")
@@ -277,6 +282,7 @@ _BUILTIN_OVERRIDES = {
     "range": sym.vc_range,
     "type": sym.vc_type,
     "iter": sym.vc_iter,
+    "zip": sym.vc_zip,
 }
 
 
